@@ -119,9 +119,15 @@ class AbstractDeme(ABC):
 
     @property
     def iterations_count_since_last_sprout(self) -> int:
-        return self.current_iteration - max(
-            [child.started_at for child in self.children],
-            default=self.current_iteration,
+        # A deme that has hibernated has run fewer metaepochs than the tree, so its own clock can be behind
+        # the metaepoch in which its newest child was started: never report a negative count.
+        return max(
+            self.current_iteration
+            - max(
+                [child.started_at for child in self.children],
+                default=self.current_iteration,
+            ),
+            0,
         )
 
     def add_child(self, deme: "AbstractDeme") -> None:
